@@ -318,6 +318,26 @@ def handleAstdiff (id : String) (xs : List Sx) : String :=
       s!"(res {id} (changed{String.join (ch.map (fun r => s!" ({r.pos} {r.stop})"))}){snap}{bad}{decls})"
   | _, _ => s!"(res {id} (bad-case))"
 
+def ivsOf (xs : List Sx) : List Iv := xs.filterMap (fun i => match i with
+  | .list [a, b] => some { s := a.asNat, e := b.asNat }
+  | _ => none)
+
+/-- one changelog: the regions astdiff reported (`plus`), what the replacer recorded as unchanged (`minus`), the intervals
+the real `ChangedIntervals` returned (`out`), the extents of the declarations in which nothing was rewritten -/
+def handleChangelog (id : String) (xs : List Sx) : String :=
+  let plus := ivsOf (Sx.field xs "plus")
+  let minus := ivsOf (Sx.field xs "minus")
+  let out := ivsOf (Sx.field xs "out")
+  let untouched : List Extent := (Sx.field xs "untouched").filterMap (fun c => match c with
+    | .list [a, b] => some { s := a.asNat, e := b.asNat }
+    | _ => none)
+  let model := changedIntervals plus minus
+  let sound := soundOutB out plus minus
+  let strong := plus.all (fun r => untouched.all (fun x => !(x.s < x.e) || strongClear r x))
+  let resp := respects out untouched
+  let b (x : Bool) := if x then "1" else "0"
+  s!"(res {id} (model{String.join (model.map (fun i => s!" ({i.s} {i.e})"))}) (sound {b sound}) (strongclear {b strong}) (respects {b resp}))"
+
 def handleLine (sc : Option Schema) (line : String) : String :=
   match Sx.ofString line with
   | .list (.atom "case" :: id :: .atom "engine" :: xs) => handleEngine sc id.asStr xs
@@ -328,6 +348,7 @@ def handleLine (sc : Option Schema) (line : String) : String :=
   | .list (.atom "case" :: id :: .atom "augment" :: xs) => handleAugment id.asStr xs
   | .list (.atom "case" :: id :: .atom "comments" :: xs) => handleComments id.asStr xs
   | .list (.atom "case" :: id :: .atom "astdiff" :: xs) => handleAstdiff id.asStr xs
+  | .list (.atom "case" :: id :: .atom "changelog" :: xs) => handleChangelog id.asStr xs
   | .list (.atom "echo" :: [v]) => canonV (decodeV v)
   | _ => "(bad-op)"
 
